@@ -1,27 +1,40 @@
 import Driver.Env
 import Driver.Match
+import Driver.Store
+import Driver.PathGuard
 open Sfw
 
-def dispatch (suite : String) : Option (List String → String) :=
+/-- a suite is a state machine over protocol lines -/
+structure Suite where
+  σ : Type
+  init : σ
+  step : σ → List String → σ × String
+
+def pureSuite (f : List String → String) : Suite := { σ := Unit, init := (), step := fun _ fs => ((), f fs) }
+
+def dispatch (suite : String) : Option Suite :=
   match suite with
-  | "env" => some Driver.envStep
-  | "match" => some Driver.matchStep
+  | "env" => some (pureSuite Driver.envStep)
+  | "match" => some (pureSuite Driver.matchStep)
+  | "pathguard" => some (pureSuite Driver.pathGuardStep)
+  | "store" => some { σ := Sfw.Store.KV, init := Sfw.Store.init, step := Driver.storeStep }
   | _ => none
 
-partial def loop (h : IO.FS.Stream) (out : IO.FS.Stream) (f : List String → String) : IO Unit := do
+partial def loop (h : IO.FS.Stream) (out : IO.FS.Stream) (s : Suite) (st : s.σ) : IO Unit := do
   let line ← h.getLine
   if line.isEmpty then return ()
-  out.putStrLn (f (fields line))
-  loop h out f
+  let (st', o) := s.step st (fields line)
+  out.putStrLn o
+  loop h out s st'
 
 def main (args : List String) : IO UInt32 := do
   match args with
   | [suite] =>
     match dispatch suite with
-    | some f =>
+    | some s =>
       let stdin ← IO.getStdin
       let stdout ← IO.getStdout
-      loop stdin stdout f
+      loop stdin stdout s s.init
       stdout.flush
       return 0
     | none => IO.eprintln s!"unknown suite {suite}"; return 2
